@@ -170,7 +170,7 @@ def psi_plain(ic):
     return psi, psiPrime
 
 
-def Pnk_of(ic):
+def Pnk_of(ic, as_defaultdict=False):
     """P_n(k2|k1) hand count: fraction of edge-ends of degree-k1 nodes that lead to degree k2"""
     out = {}
     for u in ic.nodes:
@@ -182,6 +182,10 @@ def Pnk_of(ic):
         tot = sum(row.values())
         for k2 in row:
             row[k2] /= tot
+    if as_defaultdict:
+        # the container EoN.get_Pnk itself returns: rows are defaultdict(int), a missing (k1,k2) reads as 0 - and a read inserts it
+        from collections import defaultdict
+        out = {k1: defaultdict(int, row) for k1, row in out.items()}
     return out
 
 
@@ -253,6 +257,10 @@ def _node_level(name, sir):
         if c.get('nodelist_perm'):
             nodes = [oracles.tolabel(u) for u in c['gc']['nodes']]
             kw['nodelist'] = [nodes[i] for i in c['nodelist_perm']]      # an explicit nodelist in an order of the caller's choosing
+        if c.get('nl_weights') in ('both', 'transmission'):
+            kw['transmission_weight'] = 'w'
+        if c.get('nl_weights') in ('both', 'recovery'):
+            kw['recovery_weight'] = 'rw'
         return getattr(EoN, name), [G, c['tau'], c['gamma']], kw
     return build
 
@@ -389,7 +397,7 @@ def entries():
         psi, psiP = psi_plain(ic)
         return [ic.N, psi, psiP, c['tau'], c['gamma'], c['rho']], {}
     A(Entry('EBCM_uniform_introduction', 'SIR', 'direct', ['rho'], _direct('EBCM_uniform_introduction', ebcm_ui_args), {'theta': 4}))
-    A(Entry('EBCM_pref_mix', 'SIR', 'direct', ['rho'], _direct('EBCM_pref_mix', lambda c, ic: ([ic.N, ic.Pk(), Pnk_of(ic), c['tau'], c['gamma']], {'rho': c['rho']})), {}))
+    A(Entry('EBCM_pref_mix', 'SIR', 'direct', ['rho'], _direct('EBCM_pref_mix', lambda c, ic: ([ic.N, ic.Pk(), Pnk_of(ic, c.get('pnk_defaultdict')), c['tau'], c['gamma']], {'rho': c['rho']})), {}))
 
     def ebcm_d_args(c, ic, G):
         ph, php, _ = psi_fns(ic)
@@ -401,7 +409,7 @@ def entries():
         return [ic.N, psi, psiP, c['p'], c['rho']], {'tmax': c['dtmax'] - c['dtmin']}
     A(Entry('EBCM_discrete_uniform_introduction', 'SIR', 'direct', ['rho'], _discrete('EBCM_discrete_uniform_introduction', ebcm_dui_args), {'theta': 4}, discrete='tmin0'))
     A(Entry('EBCM_pref_mix_discrete', 'SIR', 'direct', ['rho'], _discrete('EBCM_pref_mix_discrete',
-            lambda c, ic, G: ([ic.N, ic.Pk(), Pnk_of(ic), c['p']], {'rho': c['rho'], 'tmin': c['dtmin'], 'tmax': c['dtmax']})), {}, discrete=True))
+            lambda c, ic, G: ([ic.N, ic.Pk(), Pnk_of(ic, c.get('pnk_defaultdict')), c['p']], {'rho': c['rho'], 'tmin': c['dtmin'], 'tmax': c['dtmax']})), {}, discrete=True))
     return E
 
 
@@ -445,7 +453,7 @@ def expected_aux(ic, key):
 
 @st.composite
 def analytic_case(draw, names=None, nmax=12, need_edge=True, modes=('rho', 'sets'), labels=('int', 'perm', 'str', 'tuple'),
-                  rates=None, family=None, depletion_cap=3.0, selfloops=False):
+                  rates=None, family=None, depletion_cap=3.0, selfloops=False, weights=False):
     name = draw(st.sampled_from(sorted(names or ENTRIES)))
     e = ENTRIES[name]
     n_hi = min(nmax, e.nmax)
@@ -490,6 +498,15 @@ def analytic_case(draw, names=None, nmax=12, need_edge=True, modes=('rho', 'sets
     if mode == 'rho' and e.level == 'wrapper' and '_from_graph' in name and not e.discrete and 'pref_mix' not in name and draw(st.integers(0, 4)) == 0:
         case['rho_default'] = True       # rho omitted: the documented default 1/N
         case['rho'] = 1.0 / len(gc['nodes'])
+    if weights and ('individual_based' in name or 'pair_based' in name) and '[' not in name and draw(st.booleans()):
+        # edge / node attributes scaling the transmission and recovery rates of the node-level models
+        wp = st.sampled_from([0.25, 0.5, 1.0, 1.5, 2.0])
+        gc['ew'] = {'w': [draw(wp) for _ in gc['edges']]}
+        gc['nw'] = {'rw': [draw(wp) for _ in gc['nodes']]}
+        case['nl_weights'] = draw(st.sampled_from(['both', 'both', 'transmission', 'recovery']))
+        case['tmax'] = case['tmin'] + (case['tmax'] - case['tmin']) / 2.0       # hazards up to twice as large
+    if name in ('EBCM_pref_mix', 'EBCM_pref_mix_discrete'):
+        case['pnk_defaultdict'] = draw(st.booleans())
     if ('individual_based' in name or 'pair_based' in name) and '[' not in name and draw(st.booleans()):
         case['nodelist_perm'] = list(draw(st.permutations(list(range(len(gc['nodes']))))))    # explicit nodelist, caller's order
     return case
